@@ -27,6 +27,9 @@ impl DetectProp for C06 {
         if idx % 20 == 7 {
             return conflicting_hints_case(rng);
         }
+        if idx % 20 == 13 {
+            return misdeclared_legacy_case(rng);
+        }
         if idx % 10 == 4 {
             // a keyword-like fragment with a label that names nothing, before the real declaration
             let first = *rng.pick(&["Content-Transfer-Encoding: 7bit\n", "Content-Encoding: gzip\n", "Accept-Encoding: br\n", "<?xml version=\"1.0\" encoding=\"utf-57\"?>\n", "transfer-coding = chunked\n"]);
@@ -102,6 +105,43 @@ impl DetectProp for C06 {
             c.sett.pre = false;
         }
         c
+    }
+    fn extra(&self, rep: &mut Report, _drv: &mut Driver, rng: &mut Rng, thorough: bool) {
+        // whether a self-identifying candidate "has chaos below 10 %" is a fact about the content and the threshold
+        // of *this* call: the same content asked under other thresholds before must not change the answer
+        let heads = ["\u{1}", "\u{1}\u{2}", "#+#+#+#+", "\u{7}x\u{7}"];
+        for (k, head) in heads.iter().enumerate() {
+            if !thorough && k >= 2 {
+                break;
+            }
+            let body = stretch(rng, TEXTS[0].1, 360 + 40 * k);
+            let mut text = String::new();
+            for (i, c) in body.chars().enumerate() {
+                if i == 7 {
+                    text.push_str(head);
+                }
+                text.push(c);
+            }
+            let bytes = text.into_bytes();
+            let thrs = [0.3f32, 0.2, 0.5, 0.1, 0.25];
+            let mk = |thr: f32| {
+                let mut s = Sett::default();
+                s.thr = thr;
+                s
+            };
+            vh::flush_caches();
+            let warm: Vec<Outcome> = thrs.iter().map(|t| real_detect(&bytes, &mk(*t))).collect();
+            for (t, w) in thrs.iter().zip(warm.iter()) {
+                vh::flush_caches();
+                let cold = real_detect(&bytes, &mk(*t));
+                rep.evaluations += 1;
+                rep.oracle_checked += 1;
+                rep.count("oracle:threshold-sequence");
+                if &cold != w {
+                    rep.fail("oracle", "C06:answer-depends-on-earlier-thresholds", &format!("thr {} after {:?}: {} || alone: {}", t, thrs, w.show(), cold.show()), &bytes, Some(&mk(*t)), "threshold-sequence");
+                }
+            }
+        }
     }
     fn oracle(&self, cx: &mut Ctx, case: &Case, raw: &RealRaw) {
         let s = &case.sett;
